@@ -31,6 +31,23 @@ def run(prog: Program, rep: Report, tier: str) -> None:
     pointer_order(rep, prog)
     pointer_entries(rep, prog)
     negative_expand(rep, prog)
+    # the rule-index table is written through the mask's pattern: in masked_fill_into the stored mask meets `dest` only via
+    # project(dest, self.paxes, self.vaxes, ...) -- the stored tensor's axes are in physical order, dest's in virtual order
+    mf = prog.cls('fggs.indices', 'PatternedTensor').methods.get('masked_fill_into')
+    if mf is None:
+        rep.error('C04-D4: PatternedTensor.masked_fill_into not found')
+    else:
+        selfn_, destn = mf.positional_params()[0], mf.positional_params()[1]
+        n_mask = 0
+        for c in [x for x in own_nodes(mf.node) if isinstance(x, ast.Call)]:
+            parts = [norm(a) for a in c.args] + ([norm(c.func.value)] if isinstance(c.func, ast.Attribute) else [])
+            if f"{selfn_}.physical" in parts:
+                n_mask += 1
+                raw = destn in parts
+                rep.ob('C04-D4 pointer-entries mask alignment', mf.fq(), norm(c)[:80], mf.loc(c), not raw,
+                       'the stored mask is combined with the projection of dest along its own pattern' if not raw else
+                       f"the stored mask is applied to `{destn}` directly: its axes are in physical order (gt() returns them reversed), so for two external nodes of one domain the table of winning rules is written transposed")
+        rep.floor('C04-D4 mask alignment', n_mask, 1)
     from ..rules.loopstate import check_jacobi_sweep
     rep.floor('C04-D6', check_jacobi_sweep(rep, 'C04-D6 jacobi-sweep', prog.func(VT, 'F_viterbi')), 1)
     # D5: the per-component loop of viterbi() decides trivial / iterated and collects x1, lp1, rp1 per component
